@@ -32,7 +32,7 @@ from .c16_gen import (PYWS, gen_range_header, gen_len, gen_request, gen_elements
 
 PROPERTY = 'C16'
 LEAN_TARGETS = ['CpProofs.C16', 'CpProofs.C16Cond', 'CpProofs.C16Elems', 'CpProofs.C16Multipart', 'CpProofs.C16Flow',
-                'drv_c16']
+                'CpProofs.C16ElemsFull', 'CpProofs.C16Date', 'drv_c16']
 DRIVER = 'drv_c16'
 THEOREMS = ['CpProofs.C16.' + t for t in (
     # ranges: parsing
@@ -52,6 +52,13 @@ THEOREMS = ['CpProofs.C16.' + t for t in (
     'respondX_legacy', 'flow_gen_run', 'runScript_pass_iff', 'flow_gen_iff_dictated', 'flow_gen_not_dictated_full',
     'flow_gen_200_body', 'flow_304_no_body', 'flow_buffered_304_no_body', 'not_flow_304_no_body_full',
     'flow_412_no_entity', 'flow_304_getHead', 'flow_non2xx_untouched', 'flow_file_stream',
+    # HeaderMap.elements in full: parameters, unquoting, stable sort + reversal, str()
+    'sortStable_perm', 'elementsFull_perm', 'elementsFull_mem', 'ltText_trans', 'sortStable_sorted',
+    'elementsFull_descending', 'validateEtags_perm', 'sorting_irrelevant', 'parseElement_plain', 'parsed_plain',
+    'plain_decision', 'render_params_ne_value', 'param_element_never_matches',
+    # HTTP dates: the Last-Modified text determines the timestamp; If-(Un)Modified-Since over dates
+    'g_mono', 'years_ok', 'doys_ok', 'civilOfDoe_inv', 'civil_injective', 'civil_ranges', 'renderFields_inj',
+    'httpDate_injective', 'ims_dates', 'ius_dates',
     # list-valued validators
     'elements_tag_list', 'listed_etag_matches', 'space_codes_not_quote',
     # obligations over the regenerated tables
@@ -484,6 +491,7 @@ def real_elements(name, v):
 def check_elements(ctx, values, compare=True):
     lines = ['E %s' % enc_opt(v) for v in values]
     model = ctx.model(lines) if compare else None
+    full = ctx.model(['F %s' % enc_opt(v) for v in values]) if compare else None
     for idx, v in enumerate(values):
         got = real_elements('If-Match', v)
         want = oracle_elements(v)
@@ -498,6 +506,81 @@ def check_elements(ctx, values, compare=True):
             m = [] if model[idx] == '[]' else [dec_text(x) for x in model[idx].split('/')]
             if sorted(m) != sorted(got):
                 ctx.disagree(case, sorted(got), sorted(m), 'header_elements split')
+        if full is not None:
+            # the whole of header_elements + str(): split, parameters, unquoting, the stable sort, its reversal
+            ctx.compared()
+            ctx.count('E:params' if ';' in (v or '') else 'E:plain')
+            m = [] if full[idx] == '[]' else [dec_text(x) for x in full[idx].split('/')]
+            if m != got:
+                ctx.disagree(case, got, m, 'header_elements: elements as rendered, in order')
+
+
+# ----------------------------------------------------------------------------------------------
+# stream D: HTTPDate(t) for integer timestamps (the Last-Modified text)
+# ----------------------------------------------------------------------------------------------
+MAX_TS = 253402300799          # 9999-12-31 23:59:59, the last instant `datetime` can represent
+
+
+def gen_timestamp(rng):
+    import calendar
+    r = rng.random()
+    if r < 0.25:
+        return rng.randint(0, MAX_TS)
+    if r < 0.45:
+        return rng.randint(0, 2 * 10 ** 9)
+    y = rng.choice([1970, 1971, 1972, 1999, 2000, 2001, 2004, 2038, 2100, 2101, 2400, 9999, rng.randint(1970, 9999)])
+    mo, d = rng.choice([(1, 1), (2, 28), (2, 29), (3, 1), (12, 31), (rng.randint(1, 12), rng.randint(1, 28)),
+                        (rng.choice([4, 6, 9, 11]), 30), (rng.choice([1, 3, 5, 7, 8, 10, 12]), 31)])
+    if (mo, d) == (2, 29) and not calendar.isleap(y):
+        d = 28
+    h, mi, sec = rng.choice([(0, 0, 0), (23, 59, 59), (rng.randint(0, 23), rng.randint(0, 59), rng.randint(0, 59))])
+    return min(MAX_TS, calendar.timegm((y, mo, d, h, mi, sec)))
+
+
+def real_httpdate(t):
+    from cherrypy.lib import httputil
+    try:
+        return str(httputil.HTTPDate(t))
+    except Exception as e:
+        return 'EXC:' + type(e).__name__
+
+
+def oracle_httpdate(t):
+    """IMF-fixdate of the instant, computed independently of email.utils (RFC 7231 7.1.1.1)."""
+    import calendar
+    days, sod = divmod(t, 86400)
+    y = 1970
+    while True:
+        n = 366 if calendar.isleap(y) else 365
+        if days < n:
+            break
+        days -= n
+        y += 1
+    # (only used for small samples: the loop is linear in the year)
+    mo = 1
+    while days >= calendar.monthrange(y, mo)[1]:
+        days -= calendar.monthrange(y, mo)[1]
+        mo += 1
+    wd = ['Thu', 'Fri', 'Sat', 'Sun', 'Mon', 'Tue', 'Wed'][(t // 86400) % 7]
+    return '%s, %02d %s %04d %02d:%02d:%02d GMT' % (
+        wd, days + 1, ['Jan', 'Feb', 'Mar', 'Apr', 'May', 'Jun', 'Jul', 'Aug', 'Sep', 'Oct', 'Nov', 'Dec'][mo - 1], y,
+        sod // 3600, sod % 3600 // 60, sod % 60)
+
+
+def check_dates(ctx, stamps, compare=True):
+    model = ctx.model(['D %d' % t for t in stamps]) if compare else None
+    for idx, t in enumerate(stamps):
+        got = real_httpdate(t)
+        case = {'op': 'D', 't': t}
+        ctx.case(case, nontrivial=True, key='D|%d' % t)
+        ctx.count('D:' + ('<2^31' if t < 2 ** 31 else '>=2^31'))
+        if idx % 8 == 0 and got != oracle_httpdate(t):
+            ctx.oracle_fail(case, 'HTTPDate(%d) = %r, the IMF-fixdate of that instant is %r' % (t, got, oracle_httpdate(t)),
+                            'httpdate:wrong')
+        if model is not None:
+            ctx.compared()
+            if dec_text(model[idx]) != got:
+                ctx.disagree(case, got, dec_text(model[idx]), 'HTTPDate text')
 
 
 # ----------------------------------------------------------------------------------------------
@@ -876,8 +959,6 @@ def model_line(case, obs=None):
     else:
         lm, call = httpdate(case['mtime']), False
     auto = '"%s"' % hashlib.md5(content).hexdigest()
-    im = real_elements('If-Match', case.get('im'))
-    inm = real_elements('If-None-Match', case.get('inm'))
     if 'hex' in case:
         cont = 'x' + (case['hex'] or '-')
     else:
@@ -886,7 +967,7 @@ def model_line(case, obs=None):
         'Q', 'gen' if kind == 'gen' else 'file', case['method'], case['proto'].replace('.', ''),
         '0' if kind == 'bio' else '1', str(case['base'] if kind == 'gen' else 200), '1' if call else '0',
         '1' if case['etags'] >= 1 else '0', '1' if case['etags'] == 2 else '0',
-        enc_opt(case['hetag']), enc_text(auto), enc_opt(lm), enc_list(im), enc_list(inm),
+        enc_opt(case['hetag']), enc_text(auto), enc_opt(lm), enc_opt(case.get('im')), enc_opt(case.get('inm')),
         enc_opt(case.get('ims')), enc_opt(case.get('ius')), enc_opt(case.get('range')), cont,
         enc_opt(multipart_boundary(obs)), enc_text('text/plain' if kind in ('tool', 'index') else 'application/x-test'),
         '1' if case.get('stream') else '0', script or '-', enc_text(EMPTY_TAG)])
@@ -1212,6 +1293,9 @@ def corpus_cases():
 def run_case_list(ctx, cases, compare=True):
     unit = [(c['header'], c['length']) for c in cases if c.get('op') == 'R']
     els = [c['value'] for c in cases if c.get('op') == 'E']
+    stamps = [c['t'] for c in cases if c.get('op') == 'D']
+    if stamps:
+        check_dates(ctx, stamps, compare)
     reqs = [c for c in cases if c.get('op', 'Q') == 'Q']
     if unit:
         check_unit(ctx, unit, compare)
@@ -1355,6 +1439,9 @@ def run(ctx):
         # E: element lists
         check_elements(ctx, [gen_elements_value(rng) for _ in range(ctx.budget(600, 5000))])
         mark('elements')
+        check_dates(ctx, [0, 1, 86399, 86400, 951782399, 951782400, 951868800, 2 ** 31 - 1, 2 ** 31, 4107542400, MAX_TS] +
+                    [gen_timestamp(rng) for _ in range(ctx.budget(1500, 20000))])
+        mark('dates')
         # Q: requests; first the systematic validator table (every tier), then generated ones
         table = enum_decision_table()
         check_requests(ctx, table if not ctx.quick() else table[ctx.seed % 2::2])
